@@ -577,7 +577,13 @@ def _iter_segments(
                                 slice_start,
                                 element.template_slice.stop + tfs_offset,
                             ),
-                            element.template_slice,
+                            # NOTE: If part of this element has already been
+                            # yielded (split whitespace), only claim the rest.
+                            slice(
+                                element.template_slice.start
+                                + consumed_element_length,
+                                element.template_slice.stop,
+                            ),
                             templated_file,
                         ),
                         subslice=slice(consumed_element_length, None),
@@ -630,7 +636,13 @@ def _iter_segments(
                                     + tfs_offset,
                                     tfs.templated_slice.stop + tfs_offset,
                                 ),
-                                element.template_slice,
+                                # Only claim the part of the templated file
+                                # which this piece actually covers.
+                                slice(
+                                    element.template_slice.start
+                                    + consumed_element_length,
+                                    tfs.templated_slice.stop,
+                                ),
                                 templated_file,
                             ),
                             # Subdivide the existing segment.
@@ -687,7 +699,11 @@ def _iter_segments(
                                     # slice. We can't subdivide any better.
                                     tfs.source_slice.stop,
                                 ),
-                                element.template_slice,
+                                slice(
+                                    element.template_slice.start
+                                    + consumed_element_length,
+                                    element.template_slice.stop,
+                                ),
                                 templated_file,
                             ),
                             subslice=slice(consumed_element_length, None),
